@@ -119,14 +119,38 @@ h_jwe_compact_header_json_gcmkw = _jwe_header_json("gcmkw", ["A128GCMKW", "A128G
 h_jwe_compact_header_json_pbes2 = _jwe_header_json("pbes2", ["PBES2-HS256+A128KW", "A128GCM"])
 
 
-def h_jwe_compact_ecdh_header_json():
-    """ECDH-ES family with an EC or OKP private key: epk (and apu/apv) are arbitrary JSON."""
-    kind = sym_choice("key", ["ec", "okp"])
-    key = make_key("ec", "E", True, "secp256r1") if kind == "ec" else make_key("okp", "E", True, "x25519")
-    hb = sym_bytes("hb")
-    assume(spec_json_ok(hb))
-    out = call(jwe.decrypt_compact, _jwe_token(hb), key, ["ECDH-ES", "ECDH-ES+A128KW", "A128GCM"])
-    check(out.raised_only(JoseError, ValueError), "jwe.decrypt_compact(any JSON header, EC/OKP key): only JoseError / ValueError escape")
+def _jwe_ecdh_header_json(name, kinds, algs):
+    def h():
+        kind = sym_choice("key", kinds)
+        key = make_key("ec", "E", True, "secp256r1") if kind == "ec" else make_key("okp", "E", True, "x25519")
+        hb = sym_bytes("hb")
+        assume(spec_json_ok(hb))
+        out = call(jwe.decrypt_compact, _jwe_token(hb), key, algs)
+        check(out.raised_only(JoseError, ValueError), "jwe.decrypt_compact(any JSON header, EC/OKP key; %s): only JoseError / ValueError escape" % name)
+    h.__name__ = "h_jwe_compact_ecdh_header_json_" + name
+    h.__doc__ = "ECDH-ES family with a private %s key: epk (and apu/apv) are arbitrary JSON; algorithms %s" % (kinds, algs)
+    return h
+
+
+def _jwe_ecdh_epk_json(kind):
+    def h():
+        key = make_key("ec", "E", True, "secp256r1") if kind == "ec" else make_key("okp", "E", True, "x25519")
+        header = {"alg": "ECDH-ES", "enc": "A128GCM", "epk": sym_json("epk")}
+        if sym_choice("with_apu", [False, True]):
+            header["apu"] = sym_json("apu")
+        hb = spec_utf8(spec_jsonc(header))
+        out = call(jwe.decrypt_compact, _jwe_token(hb), key, ["ECDH-ES", "A128GCM"])
+        check(out.raised_only(JoseError, ValueError), "jwe.decrypt_compact(ECDH-ES header with epk/apu any JSON value, %s key): only JoseError / ValueError escape" % kind)
+    h.__name__ = "h_jwe_compact_ecdh_epk_json_" + kind
+    h.__doc__ = "ECDH-ES token whose epk (and apu) header members are arbitrary JSON values; private %s key" % kind
+    return h
+
+
+h_jwe_compact_ecdh_epk_json_ec = _jwe_ecdh_epk_json("ec")
+h_jwe_compact_ecdh_epk_json_okp = _jwe_ecdh_epk_json("okp")
+h_jwe_compact_ecdh_header_json_ec = _jwe_ecdh_header_json("ec", ["ec"], ["ECDH-ES", "A128GCM"])
+h_jwe_compact_ecdh_header_json_okp = _jwe_ecdh_header_json("okp", ["okp"], ["ECDH-ES", "A128GCM"])
+h_jwe_compact_ecdh_header_json_kw = _jwe_ecdh_header_json("kw", ["ec", "okp"], ["ECDH-ES", "ECDH-ES+A128KW", "A128GCM", "A128CBC-HS256"])
 
 
 def h_jwe_compact_rsa_header_json():
@@ -174,8 +198,9 @@ def h_jwt_decode_jwe():
 
 
 JWE_HARNESSES = [h_jwe_compact_bytes, h_jwe_compact_header_json_dir, h_jwe_compact_header_json_kw, h_jwe_compact_header_json_gcmkw,
-                 h_jwe_compact_header_json_pbes2, h_jwe_compact_ecdh_header_json, h_jwe_compact_rsa_header_json,
+                 h_jwe_compact_header_json_pbes2, h_jwe_compact_ecdh_epk_json_ec, h_jwe_compact_ecdh_epk_json_okp, h_jwe_compact_rsa_header_json,
                  h_jwt_decode_jwe] + JWE_JSON_HARNESSES
 HARNESSES = [h_jws_compact_bytes, h_jws_compact_header_json, h_jws_compact_str, h_7797_compact_header_json,
              h_jws_flattened_members, h_jws_general_members, h_jwt_decode_jws]
 HARNESSES += JWE_HARNESSES
+THOROUGH_HARNESSES = [h_jwe_compact_ecdh_header_json_ec, h_jwe_compact_ecdh_header_json_okp, h_jwe_compact_ecdh_header_json_kw]
